@@ -165,4 +165,4 @@ def check_one(case, ctx, shared=None):
 
 
 def subchecks():
-    return [HypSub("pickaperm", cases, check, 5000, 60000)]
+    return [HypSub("pickaperm", cases, check, 12000, 150000)]
